@@ -15,12 +15,23 @@ Request line:  `id enc <op> key=value …`
     cmp_gglwe    bits n b kxe size rank rank_in dnum dsize sk=<cols> pt=<polys> top=<words> seeds=<4 words;…> child=<words;…> es=<polys>
     cmp_ggsw     same with one plaintext polynomial; answer of both: `<seed words;…> <cell/cell/…>` in storage order
                  (each cell = decompress_glwe of the stored (body, seed)); `seeds`/`child` is the table of `Source::new`
+                 (each cell = decompress_glwe of the stored (body, seed)); the routines executed are the scratch-temporary
+                 versions `…CompressedT`, entered with a non-zero temporary
+    cmp_tsk      as cmp_gglwe without `pt`: compressed tensor key (the model derives the tensor secret from `sk`)
+    cmp_brk      bits n b kxe size rank dnum sk=<cols> sklwe=<ints> top gseeds=<4 words;…> sub=<words;…> seeds child es:
+                 compressed blind-rotation key, all GGSWs; answer as cmp_ggsw over all GGSWs in order
+    lwe_dec      b nl [resb= ressize=] body=<ints> xa=<raw words>: `decompress_lwe` (with its base2k/size assertions; receiver radix / limbs
+                 default to the object's) of (body, Source::new(seed) words)
+    bundle_order layout=<cbt|bdd> ksg=<0|1> gal=<Galois elements, any order> atkw atke brkw brke tskw tske ksgw ksge kslw ksle
+                 (`…w` mask words, `…e` error polynomials one sub-key of that kind consumes): answer
+                 `<name:first mask word:mask words:first error polynomial:error polynomials;…>` in encryption order
 Answer line:   `id <ciphertext columns> <decrypted plaintext column>` (enc ops),
                `id <columns>` (stream ops), `id panic` when the model reaches a Rust panic.
 -/
 import Poulpy.Driver.Util
 import Poulpy.Model.Core.Enc
 import Poulpy.Model.Core.EncMat
+import Poulpy.Model.Core.Bundle
 
 namespace Drv.Enc
 open Drv
@@ -69,6 +80,10 @@ def showCells (b n rank count : Nat) (expand : List Nat → List Nat) (cells : L
       | none => "panic")
     | none => "missing")
   ";".intercalate seeds ++ " " ++ "/".intercalate objs
+
+/-- a scratch temporary of the right shape holding leftovers of earlier use (the routines must not depend on it) -/
+def dirtyTmp (n size : Nat) : Col :=
+  (List.range size).map (fun j => (List.range n).map (fun i => ((j * n + i : Nat) : Int) * 7919 - 12345))
 
 def handle (ts : List String) : String :=
   match ts with
@@ -127,19 +142,64 @@ def handle (ts : List String) : String :=
       let expand := expandTable top (kvWordLists ts "seeds") (kvWordLists ts "child")
       let rankIn := kvNat ts "rank_in"
       let dnum := kvNat ts "dnum"
-      match Core.gglweEncryptCompressed bits b n size kxe (kvNat ts "rank") rankIn dnum (kvNat ts "dsize") (kvPolys ts "pt")
+      match Core.gglweEncryptCompressedT (dirtyTmp n size) bits b n size kxe (kvNat ts "rank") rankIn dnum (kvNat ts "dsize") (kvPolys ts "pt")
           (kvPolys ts "sk") expand [] (kvPolys ts "es") with
       | none => "panic"
       | some cells => showCells b n (kvNat ts "rank") (rankIn * dnum) expand cells
+    | "cmp_tsk" =>
+      let top := natsOf ts "top"
+      let expand := expandTable top (kvWordLists ts "seeds") (kvWordLists ts "child")
+      let rank := kvNat ts "rank"
+      let dnum := kvNat ts "dnum"
+      match Core.tensorKeyEncryptCompressedT (dirtyTmp n size) bits b n size kxe rank dnum (kvNat ts "dsize")
+          (kvPolys ts "sk") expand [] (kvPolys ts "es") with
+      | none => "panic"
+      | some cells => showCells b n rank ((rank * (rank + 1) / 2) * dnum) expand cells
+    | "cmp_brk" =>
+      let top := natsOf ts "top"
+      let expand := expandTable top (kvWordLists ts "gseeds" ++ kvWordLists ts "seeds") (kvWordLists ts "sub" ++ kvWordLists ts "child")
+      let rank := kvNat ts "rank"
+      let dnum := kvNat ts "dnum"
+      match Core.brkEncryptCompressed bits b n size kxe rank dnum (kvInts ts "sklwe") (kvPolys ts "sk") expand (dirtyTmp n size) []
+          (kvPolys ts "es") with
+      | none => "panic"
+      | some ggsws =>
+        let shown := ggsws.map (fun cells => showCells b n rank ((rank + 1) * dnum) expand cells)
+        let parts := shown.map (fun s => s.splitOn " ")
+        ";".intercalate (parts.map (fun p => p.getD 0 "")) ++ " " ++ "/".intercalate (parts.map (fun p => p.getD 1 ""))
     | "cmp_ggsw" =>
       let top := natsOf ts "top"
       let expand := expandTable top (kvWordLists ts "seeds") (kvWordLists ts "child")
       let rank := kvNat ts "rank"
       let dnum := kvNat ts "dnum"
-      match Core.ggswEncryptCompressed bits b n size kxe rank dnum (kvNat ts "dsize") ((kvPolys ts "pt").getD 0 [])
+      match Core.ggswEncryptCompressedT (dirtyTmp n size) bits b n size kxe rank dnum (kvNat ts "dsize") ((kvPolys ts "pt").getD 0 [])
           (kvPolys ts "sk") expand [] (kvPolys ts "es") with
       | none => "panic"
       | some cells => showCells b n rank ((rank + 1) * dnum) expand cells
+    | "lwe_dec" =>
+      let body := kvInts ts "body"
+      let resB := if (kv ts "resb").isSome then kvNat ts "resb" else b
+      let resSize := if (kv ts "ressize").isSome then kvNat ts "ressize" else body.length
+      match Core.decompressLweRust resB resSize b (kvNat ts "nl") body (natsOf ts "xa") with
+      | none => "panic"
+      | some c => showCol c
+    | "bundle_order" =>
+      let gal := kvInts ts "gal"
+      let order := if (kv ts "layout").getD "" == "bdd" then Core.bddOrder (kvNat ts "ksg" != 0) gal else Core.cbtOrder gal
+      let use : Core.SubKey → Core.Use := fun k => match k with
+        | .atk _ => ⟨kvNat ts "atkw", kvNat ts "atke"⟩
+        | .brk => ⟨kvNat ts "brkw", kvNat ts "brke"⟩
+        | .tsk => ⟨kvNat ts "tskw", kvNat ts "tske"⟩
+        | .ksGlwe => ⟨kvNat ts "ksgw", kvNat ts "ksge"⟩
+        | .ksLwe => ⟨kvNat ts "kslw", kvNat ts "ksle"⟩
+      let name : Core.SubKey → String := fun k => match k with
+        | .atk p => s!"atk[{p}]"
+        | .brk => "brk"
+        | .tsk => "tsk"
+        | .ksGlwe => "ks_glwe"
+        | .ksLwe => "ks_lwe"
+      ";".intercalate ((Core.segments use order 0 0).map (fun s =>
+        s!"{name s.1}:{s.2.1}:{s.2.2.1}:{s.2.2.2.1}:{s.2.2.2.2}"))
     | "masks" =>
       -- `cells` consecutive cells, each `rank` mask columns drawn from the same source in order
       let rank := kvNat ts "rank"
